@@ -17,7 +17,9 @@ def _stmt_start(m, i):
         ch = m[k]
         if ch in ")]}":
             if ch == "}" and depth == 0:
-                return k + 1
+                nxt = m[k + 1:].lstrip()[:4]
+                if not (nxt[:1] in (";", ".", ",", ")", "?") or nxt.startswith("else") or nxt.startswith("as ")):
+                    return k + 1
             depth += 1
         elif ch in "([{":
             if depth == 0:
@@ -144,7 +146,21 @@ def r2_emit_drop(text):
                 ls = _stmt_start(pre_m, k - 1)
                 stmt = text[ls:k]
                 if re.match(r"\s*let\s+%s\s*=" % re.escape(var), mask(stmt)):
-                    rest_uses = len(re.findall(r"\b%s\b" % re.escape(var), m[e:]))
+                    # uses until the end of the enclosing block or the next re-binding of the name
+                    depth, q = 0, e
+                    while q < len(m):
+                        if m[q] in "([{":
+                            depth += 1
+                        elif m[q] in ")]}":
+                            depth -= 1
+                            if depth < 0:
+                                break
+                        q += 1
+                    scope = m[e:q]
+                    rb = re.search(r"\blet\s+(mut\s+)?%s\b" % re.escape(var), scope)
+                    if rb:
+                        scope = scope[:rb.start()]
+                    rest_uses = len(re.findall(r"\b%s\b" % re.escape(var), scope))
                     if rest_uses == 0:
                         _check_dropped(stmt, "R2", {"format", "matches"})
                         s = ls
@@ -204,7 +220,7 @@ def r3_await(text, arg="Tracked(tr)"):
     return sub(text, r"\.\s*await\b", ".vx_await(%s)" % arg, count=-1, name="R3")
 
 
-def r4_async_inline(text, created="vx_future_created(Tracked(tr));"):
+def r4_async_inline(text, created="proof { tr.future_created(); }"):
     """R4: Box::pin(async move { B })  ->  { vx_future_created(..); B }"""
     m = mask(text)
     k = 0
@@ -243,6 +259,13 @@ def r10_map_err(text, count=None):
     identifier/call: -> match X { Ok(v) => Ok(v), Err(e) => Err(V(e)) }"""
     pat = r"((?:[A-Za-z_]\w*)(?:\s*\.\s*[A-Za-z_]\w*(?:\([^()]*\))?)*)\s*\.\s*map_err\(\s*([A-Za-z_][\w:]*)\s*\)"
     return sub(text, pat, "(match \\1 { Ok(vx_v) => Ok(vx_v), Err(vx_e) => Err(\\2(vx_e)) })", count=count, name="R10e")
+
+
+def r10_poll_map_err(text, variant, count=1):
+    """X.poll_ready(cx).map_err(V) -> three-arm match on Poll (R10, Poll form)."""
+    pat = r"((?:[A-Za-z_]\w*)(?:\s*\.\s*[A-Za-z_]\w*)*\s*\.\s*poll_ready\(\s*cx\s*\))\s*\.\s*map_err\(\s*%s\s*\)" % re.escape(variant)
+    repl = "(match \\1 { Poll::Ready(Ok(vx_v)) => Poll::Ready(Ok(vx_v)), Poll::Ready(Err(vx_e)) => Poll::Ready(Err(%s(vx_e))), Poll::Pending => Poll::Pending })" % variant
+    return sub(text, pat, repl, count=count, name="R10p")
 
 
 def loops(text):
@@ -353,6 +376,8 @@ def apply_rules(text, rules, log, fn):
             text, k = r10_map_unwrap_or(text, *r[1:])
         elif kind == "R10e":
             text, k = r10_map_err(text, *r[1:])
+        elif kind == "R10p":
+            text, k = r10_poll_map_err(text, *r[1:])
         elif kind == "R18":
             text, k = r18_for_to_index(text, *r[1:])
         elif kind == "R14":
